@@ -19,24 +19,25 @@ variable {α : Type} [Field α] [LinearOrder α] [IsStrictOrderedRing α]
 theorem kkt_minimizer (G : Mat α) (m : Nat) (hG : SymmSquare G m)
     (hpsd : ∀ v : Vec α, v.length = m → 0 ≤ qf G v) (u w : Vec α) (hu : u.length = m)
     (hk : kktCheck G u w = true) : IsQPMin G u w := by
-  sorry
+  exact isQPMin_of_kktCheck G m hG hpsd u w hu hk
 
 /-- for positive definite `G` the minimiser is unique -/
 theorem qp_min_unique (G : Mat α) (m : Nat) (hG : SymmSquare G m) (hpd : PosDef G m)
     (u w w' : Vec α) (hu : u.length = m) (h : IsQPMin G u w) (h' : IsQPMin G u w') : w = w' := by
-  sorry
+  exact isQPMin_unique G m hG hpd u w w' hu h h'
 
 /-- the certified search only ever returns KKT points -/
 theorem qpProject_sound (G : Mat α) (u w : Vec α) (mg : α) (h : qpProject G u = some (w, mg)) :
     kktCheck G u w = true := by
-  sorry
+  exact qpProject_kkt G u w mg h
 
 /-- the regularised normalised Gramian is symmetric positive definite as soon as `reg_eps > 0`,
     whatever `J`, `s`, `norm_eps` -/
 theorem regNormGram_posdef (J : Mat α) (m n : Nat) (hJ : MatWF J m n) (s normEps regEps : α)
     (hre : 0 < regEps) :
     SymmSquare (regNormGram J s normEps regEps) m ∧ PosDef (regNormGram J s normEps regEps) m := by
-  sorry
+  exact ⟨regNormGram_symmSquare J m n hJ s normEps regEps,
+    regNormGram_pd J m n hJ s normEps regEps hre⟩
 
 /-- entries of the regularised normalised Gramian: `⟨j_a, j_b⟩ / s² + reg_eps·[a = b]` when
     `s ≥ norm_eps`, and `reg_eps·[a = b]` below -/
@@ -45,7 +46,7 @@ theorem regNormGram_entry (J : Mat α) (m n : Nat) (hJ : MatWF J m n) (s normEps
     ((regNormGram J s normEps regEps).getD a []).getD b 0 =
       (if s < normEps then 0 else dot (J.getD a []) (J.getD b []) / (s * s)) +
         (if a = b then regEps else 0) := by
-  sorry
+  exact regNormGram_getD J s normEps regEps a b (by rw [hJ.1]; exact ha) (by rw [hJ.1]; exact hb)
 
 /-- DualProj: the returned weights are THE minimiser of `vᵀ (J Jᵀ/s² + reg_eps I) v` subject to
     `v ≥ u` -/
@@ -54,7 +55,7 @@ theorem dualproj_is_projection (J : Mat α) (m n : Nat) (hJ : MatWF J m n) (s no
     (h : dualprojWeights J s normEps regEps u = some (w, mg)) :
     IsQPMin (regNormGram J s normEps regEps) u w ∧
     ∀ w', IsQPMin (regNormGram J s normEps regEps) u w' → w' = w := by
-  sorry
+  exact dualproj_proj J m n hJ s normEps regEps hre u w hu mg h
 
 /-- UPGrad: the returned weights are the sum over `i` of the minimisers for `u_i e_i` -/
 theorem upgrad_is_sum_of_projections (J : Mat α) (m n : Nat) (hJ : MatWF J m n)
@@ -64,7 +65,7 @@ theorem upgrad_is_sum_of_projections (J : Mat α) (m n : Nat) (hJ : MatWF J m n)
       ∀ i, i < m →
         IsQPMin (regNormGram J s normEps regEps)
           ((List.range m).map fun j => if j = i then u.getD i 0 else 0) (ws.getD i []) := by
-  sorry
+  exact upgrad_sum_proj J m n hJ s normEps regEps hre u w hu mg h
 
 /-- when no two rows conflict (`J Jᵀ ≥ 0` entrywise) and `u ≥ 0`, both aggregators return exactly
     `Jᵀ u` (the mean by default) -/
@@ -73,7 +74,7 @@ theorem no_conflict_identity (J : Mat α) (m n : Nat) (hJ : MatWF J m n) (s norm
     (hnc : ∀ a b, a < m → b < m → 0 ≤ dot (J.getD a []) (J.getD b [])) (w : Vec α) (mg : α) :
     (dualprojWeights J s normEps regEps u = some (w, mg) → w = u) ∧
     (upgradWeights J s normEps regEps u = some (w, mg) → w = u) := by
-  sorry
+  exact identity_both J m n hJ s normEps regEps hre u hu hu0 (Or.inr hnc) w mg
 
 /-- below the normalisation threshold (`s < norm_eps`) the Gramian is ignored: `Jᵀ u` again -/
 theorem below_norm_eps_identity (J : Mat α) (m n : Nat) (hJ : MatWF J m n) (s normEps regEps : α)
@@ -81,7 +82,7 @@ theorem below_norm_eps_identity (J : Mat α) (m n : Nat) (hJ : MatWF J m n) (s n
     (w : Vec α) (mg : α) :
     (dualprojWeights J s normEps regEps u = some (w, mg) → w = u) ∧
     (upgradWeights J s normEps regEps u = some (w, mg) → w = u) := by
-  sorry
+  exact identity_both J m n hJ s normEps regEps hre u hu hu0 (Or.inl hs) w mg
 
 /-- C04(a): primal feasibility `0 ≤ G w` of the projection gives non-conflict up to the stated
     allowance `reg_eps · s² · w_i`, for DualProj … -/
@@ -89,13 +90,13 @@ theorem dualproj_nonconflict (J : Mat α) (m n : Nat) (hJ : MatWF J m n) (s norm
     (hs : normEps ≤ s) (hs0 : 0 < s) (u w : Vec α) (hu : u.length = m) (mg : α)
     (h : dualprojWeights J s normEps regEps u = some (w, mg)) :
     NonConflictUpTo J (combine n J w) (w.map fun wi => regEps * (s * s) * wi) := by
-  sorry
+  exact dualproj_nc J m n hJ s normEps regEps hs hs0 u w hu mg h
 
 /-- … and for UPGrad (sum of the feasibility conditions of the `m` projections) -/
 theorem upgrad_nonconflict (J : Mat α) (m n : Nat) (hJ : MatWF J m n) (s normEps regEps : α)
     (hs : normEps ≤ s) (hs0 : 0 < s) (u w : Vec α) (hu : u.length = m) (mg : α)
     (h : upgradWeights J s normEps regEps u = some (w, mg)) :
     NonConflictUpTo J (combine n J w) (w.map fun wi => regEps * (s * s) * wi) := by
-  sorry
+  exact upgrad_nc J m n hJ s normEps regEps hs hs0 u w hu mg h
 
 end Tjd.Props.C03
